@@ -10,6 +10,7 @@ mapping.  The oracle is a z3 formula built from an explicit case-pair table
 import z3
 
 from harness import common
+from oracle import boolang
 from pysym.proxies import mkbool, SymStr, chars_of, Ch
 from pysym import shims
 
@@ -323,12 +324,79 @@ def run_file(ctx, place, fmt):
         env.close()
 
 
+def run_redefined(ctx, how):
+    """A literal role rule is enforced, redefined on the same enforcer
+    (merge without overwrite, item assignment, update, full replacement, a
+    policy-file edit), and enforced again: each decision follows the rule as
+    it is at that moment."""
+    from oslo_policy import _parser, policy
+    common.set_ctx(ctx)
+    names = ['admin', 'Member', 'oper', '\u00c4rzt']
+    first = names[int(ctx.choice('first', [0, 1, 2, 3]))]
+    second_text = str(ctx.choice('second', [
+        'role:Member', 'role:admin or role:oper', 'role:%(k)s',
+        'role:\u00e4RZT', 'role:oper and role:admin', 'not role:admin']))
+    held = [r for r in ('ADMIN', 'member', 'oper', '\u00e4rzt')
+            if bool(ctx.bool('holds.' + r))]
+    creds = {'roles': list(held)}
+    target = {'k': 'Oper'}
+    low = [r.lower() for r in held]
+
+    def sem(text):
+        def leaf(t):
+            x = t.split(':', 1)[1]
+            if x == '%(k)s':
+                x = 'Oper'
+            return x.lower() in low
+        return boolang.evaluate(boolang.text_tree(text), leaf)
+    env = None
+    if how == 'file-edit':
+        env = common.PolicyEnv()
+        env.write('policy.yaml', {'p': 'role:' + first, 'q': 'role:oper'})
+        enf = env.enforcer()
+    else:
+        enf = common.mk_enforcer(rules=policy.Rules.from_dict(
+            {'p': 'role:' + first, 'q': 'role:oper'}))
+    try:
+        one = bool(enf.enforce('p', dict(target), dict(creds)))
+        ctx.require(one == sem('role:' + first), 'redefined:first',
+                    detail={'first': first, 'roles': held, 'got': one})
+        new = _parser.parse_rule(second_text)
+        if how == 'set_rules-merge':
+            enf.set_rules({'p': new}, overwrite=False)
+        elif how == 'item':
+            enf.rules['p'] = new
+        elif how == 'update':
+            enf.rules.update(p=new)
+        elif how == 'set_rules-replace':
+            enf.set_rules({'p': new, 'q': _parser.parse_rule('role:oper')})
+        else:
+            env.write('policy.yaml', {'p': second_text, 'q': 'role:oper'})
+        two = bool(enf.enforce('p', dict(target), dict(creds)))
+        ctx.cover('redefined:' + how)
+        ctx.observe('decisions', [one, two])
+        ctx.require(two == sem(second_text),
+                    'redefined:second-decision-follows-the-old-rule',
+                    detail={'first': 'role:' + first, 'second': second_text,
+                            'how': how, 'roles': held, 'got': two,
+                            'want': sem(second_text)})
+    finally:
+        if env is not None:
+            env.close()
+
+
+def cubes_redefined(tier, seed):
+    return [{'how': h} for h in ('set_rules-merge', 'item', 'update',
+                                 'set_rules-replace', 'file-edit')]
+
+
 def cubes_file(tier, seed):
     return [{'place': p, 'fmt': f} for p in ('main', 'dir')
             for f in ('yaml', 'json')]
 
 
 HARNESSES = {'file': {'fn': run_file, 'cubes': cubes_file},
+             'redefined': {'fn': run_redefined, 'cubes': cubes_redefined},
              'role': {'fn': run_role, 'cubes': cubes_role,
                       'concretize_limit': 40000,
                       'budget_s': {'quick': 600, 'thorough': 3000}},
@@ -336,11 +404,12 @@ HARNESSES = {'file': {'fn': run_file, 'cubes': cubes_file},
                         'concretize_limit': 40000}}
 REQUIRED_COVER = ['form:' + f for f in FORMS] + [
     'allowed', 'denied', 'missing-key', 'no-roles-entry', 'repeat:append',
-    'repeat:clear', 'file:main', 'file:dir', 'file:c-locale']
+    'repeat:clear', 'file:main', 'file:dir', 'file:c-locale',
+    'redefined:set_rules-merge', 'redefined:file-edit']
 
 
 def cube_weight(hname, p):
-    if hname in ('repeat', 'file'):
+    if hname in ('repeat', 'file', 'redefined'):
         return 10 ** 10
     if p.get('alpha') == 'small':
         return 10 ** 9 + p['xlen'] + p['nroles']     # first: cheap, decisive
